@@ -45,7 +45,7 @@ def plan(tier, seed):
         specs.append({'kind': 'png', 'count': 8 if tier == 'quick' else 40, 'first': i == 0})
     for i in range(2 if tier == 'quick' else 8):
         specs.append({'kind': 'resave', 'count': 15 if tier == 'quick' else 80})
-    specs.append({'kind': 'omitted', 'count': 20 if tier == 'quick' else 150})
+    specs.append({'kind': 'omitted', 'count': 40 if tier == 'quick' else 200})
     return specs
 
 
@@ -240,6 +240,9 @@ def run_shard(spec, ctx):
         for i in range(spec['count']):
             regions, mode = carts.random_regions(rng)
             label = carts.random_bytes(rng, 8192) if rng.random() < 0.5 else None
+            if i % 6 == 5:
+                label = bytes(8192)        # an all-black label is still a label section
+                ctx.feature('p8_black_label')
             code = carts.simple_lua(rng, rng.choice((0, 50, 500)), glyphs=True)
             version = rng.choice((0, 8, 33, rng.randrange(1000)))
             case = {'kind': 'whole_p8', 'regions': regions, 'label': label, 'code': code, 'version': version}
@@ -449,8 +452,19 @@ def run_omitted(ctx, rng, spec):
                 keep = max(keep, 68)      # pattern 0 has its own default (speed 1) in an empty cart; keep it written
             regions[n] = bytes(regions[n][:keep]) + bytes(empty[n][keep:])
             ctx.feature('trimmed_' + n)
-        data = rc.write_p8(regions, code, version=version, omit=omit, trim=trim, label=carts.random_bytes(rng, 8192) if i % 3 == 0 else None)
-        case = {'kind': 'omitted', 'regions': regions, 'omit': list(omit), 'trim': list(trim), 'code': code, 'version': version}
+        # the order of the sections in the file is not prescribed: PICO-8's own order, and permutations of it
+        order = None
+        if i % 2:
+            order = ['lua', 'gfx', 'label', 'gff', 'map', 'sfx', 'music']
+            rng.shuffle(order)
+            ctx.feature('sections_in_another_order')
+            if order.index('map') < order.index('gfx'):
+                ctx.feature('map_section_before_gfx_section')
+            if order[-1] == 'lua':
+                ctx.feature('lua_section_last')
+        data = rc.write_p8(regions, code, version=version, omit=omit, trim=trim, order=order,
+                           label=carts.random_bytes(rng, 8192) if i % 3 == 0 else None)
+        case = {'kind': 'omitted', 'regions': regions, 'omit': list(omit), 'trim': list(trim), 'code': code, 'version': version, 'order': order}
         ctx.case((rc.join_memory(regions), omit, code), nontrivial=True)
         for n in omit:
             ctx.feature('omitted_' + n)
@@ -541,11 +555,13 @@ def gates(m, tier):
             missed.append('%s = %d' % (k, mon.get(k, 0)))
     if f.get('resave_histories', 0) < 20 or f.get('crlf_file_accepted', 0) + f.get('crlf_file_rejected', 0) < 10:
         missed.append('resave histories %d, CRLF variants %d' % (f.get('resave_histories', 0), f.get('crlf_file_accepted', 0) + f.get('crlf_file_rejected', 0)))
+    if f.get('sections_in_another_order', 0) < 8:
+        missed.append('files with sections in another order: %d' % f.get('sections_in_another_order', 0))
     if any(f.get('trimmed_' + n, 0) < 3 for n, _ in rc.REGIONS):
         missed.append('sections written without trailing default rows: %s' % {n: f.get('trimmed_' + n, 0) for n, _ in rc.REGIONS})
     if f.get('omitted_section_carts', 0) < 15 or any(f.get('omitted_' + n, 0) < 3 for n, _ in rc.REGIONS):
         missed.append('carts from files with omitted sections: %d (%s)' % (
             f.get('omitted_section_carts', 0), {n: f.get('omitted_' + n, 0) for n, _ in rc.REGIONS}))
-    if f.get('p8_label', 0) < 5 or f.get('p8_nolabel', 0) < 5:
+    if f.get('p8_label', 0) < 5 or f.get('p8_nolabel', 0) < 5 or f.get('p8_black_label', 0) < 3:
         missed.append('label present/absent under-sampled')
     return missed
